@@ -914,7 +914,37 @@ func (ex *Exec) callBuiltin(fr *frame, pos token.Pos, fn *ssa.Builtin, args []va
 		}
 		return args[0]
 	case "clear":
-		panic(ex.unsupported("clear"))
+		switch x := args[0].(type) {
+		case []value:
+			// every element of the slice becomes the zero value of its type (a write like any other: frames are checked)
+			if len(x) > 0 {
+				var elem types.Type
+				if sl, ok := fn.Type().(*types.Signature); ok && sl.Params().Len() == 1 {
+					if st, ok := sl.Params().At(0).Type().Underlying().(*types.Slice); ok {
+						elem = st.Elem()
+					}
+				}
+				if elem == nil {
+					panic(ex.unsupported("clear of a slice of unknown element type"))
+				}
+				for i := range x {
+					z := ex.zero(elem)
+					ex.checkWriteVal(fr, pos, &x[i], z)
+					x[i] = z
+				}
+			}
+			return nil
+		case *MapV:
+			if x != nil {
+				for _, e := range x.entries {
+					e.deleted = true
+				}
+			}
+			return nil
+		case nil:
+			return nil
+		}
+		panic(ex.unsupported(fmt.Sprintf("clear of %T", args[0])))
 	}
 	panic(ex.unsupported("builtin " + fn.Name()))
 }
